@@ -222,9 +222,12 @@ static HistRes run_history(const std::string &hist, int nslots, bool verbose) {
       const std::string &ex = EXPECT[expect_key_parse(d, m.s[s].fl, in)];
       if (ob != ex) V("C14", "parse-differs-from-fresh", done, "parse gave [" + ob + "], the same call on a fresh object with the same definition and settings gives [" + ex + "]");
       bool usable = d >= 0 && POOL.good[d];
-      if (!usable) { if (o.rc != YAEP_UNDEFINED_OR_BAD_GRAMMAR) V("C14", "parse-on-unusable-object", done, "yaep_parse returned " + std::to_string(o.rc) + " on an undefined / badly defined object"); }
+      if (!usable) {   // both statements say it: C14 "a failed definition leaves the object unusable", C15 "UNDEFINED_OR_BAD_GRAMMAR iff no grammar is defined"
+        if (o.rc != YAEP_UNDEFINED_OR_BAD_GRAMMAR) { V("C14", "parse-on-unusable-object", done, "yaep_parse returned " + std::to_string(o.rc) + " on an undefined / badly defined object"); V("C15", "undefined-grammar-code", done, "yaep_parse returned " + std::to_string(o.rc) + " although no grammar is defined on the object (YAEP_UNDEFINED_OR_BAD_GRAMMAR expected)"); }
+      }
       else if (in == 2) { if (o.rc != YAEP_INVALID_TOKEN_CODE) V("C15", "invalid-token", done, "yaep_parse returned " + std::to_string(o.rc) + " for an undeclared token code"); }
       else {
+        if (o.rc == YAEP_UNDEFINED_OR_BAD_GRAMMAR || o.rc == YAEP_INVALID_TOKEN_CODE) V("C15", "code-without-cause", done, "yaep_parse returned " + std::to_string(o.rc) + " on a defined grammar and declared token codes");
         if (o.rc != 0) V("C14", "parse-failed", done, "yaep_parse returned " + std::to_string(o.rc));
         else if ((in == 1) != !o.errs.empty()) V("C14", "parse-verdict", done, std::string(in == 1 ? "non-sentence" : "sentence") + " with " + std::to_string(o.errs.size()) + " syntax errors");
       }
